@@ -13,7 +13,7 @@ e == Ev(t)[l]
 T == Log[t]
 Cmp == T.cmp
 Hdr == T.hdr
-Cfg == T.cfg           \* [pad, key, terr, other, pt, max]; key = <<>> means no TSIG; terr/other = TSIG error and other data
+Cfg == T.cfg           \* [pad, key, alg, terr, other, pt, max]; alg = TSIG algorithm name (labels); key = <<>> means no TSIG; terr/other = TSIG error and other data
 Adv == l' = l + 1 /\ t' = t
 AlgName == <<<<104, 109, 97, 99, 45, 115, 104, 97, 50, 53, 54>>>>       \* hmac-sha256.
 
@@ -22,7 +22,7 @@ Item(i) == T.msg[i]
 Qs == SelectSeq(T.msg, LAMBDA x : x.op = "q")
 SecSets(s) == LET xs == SelectSeq(T.msg, LAMBDA x : x.op = "rr" /\ x.sec = s)
               IN [i \in 1..Len(xs) |-> MkRRset(xs[i], Cmp, ClsIN)]
-TsigRs(t48, mac) == MkTsig(Cfg.key, AlgName, t48, 300, mac, Hdr.id, Cfg.terr, Cfg.other)
+TsigRs(t48, mac) == MkTsig(Cfg.key, Cfg.alg, t48, 300, mac, Hdr.id, Cfg.terr, Cfg.other)
 \* the abstract message being rendered (TSIG time and MAC are observed values)
 Msg(t48, mac) ==
     [id |-> Hdr.id, flags |-> HdrFlags(Hdr),
